@@ -31,9 +31,20 @@ def _case(draw):
     vals = {o: draw(st.integers(-5, 5)) for o in others}
     w.update(vals)
     pool = ["x", "y"] + others
-    shape = draw(st.sampled_from(["polygon", "polygon", "polygon", "segment", "point", "empty", "missing"]))
+    shape = draw(st.sampled_from(["polygon", "polygon", "ngon", "ngon", "segment", "point", "empty", "missing"]))
     terms = []
-    for _ in range(draw(st.integers(1, 5))):
+    if shape == "ngon":
+        # corner-cutting constraints around the origin: up to 8 corners
+        xl, xh, yl, yh = -draw(st.integers(2, 5)), draw(st.integers(2, 5)), -draw(st.integers(2, 5)), draw(st.integers(2, 5))
+        w.update(x=0, y=0)
+        dirs = draw(st.lists(st.sampled_from([(1, 1), (1, -1), (-1, 1), (-1, -1), (2, 1), (-1, 2), (1, -2), (-2, -1)]), min_size=1, max_size=5, unique=True))
+        for dx, dy in dirs:
+            co = {"x": float(dx), "y": float(dy)}
+            if others and draw(st.integers(0, 2)) == 0:
+                co[others[0]] = float(draw(st.sampled_from([1, -1])))
+            terms.append([co, float(gens.dot(co, w) + draw(st.integers(2, 7)))])
+        shape = "polygon"
+    for _ in range(draw(st.integers(1, 5)) if not terms else 0):
         t = draw(gens.term_s(pool, w, kmax=3, dyadic=False, slacks=[0, 1, 1, 2, 3]))
         if draw(st.booleans()):
             t = [dict(reversed(list(t[0].items()))), t[1]]
